@@ -17,11 +17,15 @@ from vf.model_patterns import INF, isnode
 INT_LITS = [-3, -2, -1, 0, 1, 2, 3, 4, 5, 7, 9]
 FLT_LITS = [k * 0.25 for k in (-10, -6, -4, -3, -2, -1, 0, 1, 2, 3, 4, 5, 6, 8, 10, 13, 18)]
 
-POLY = ['Pseq', 'Pser', 'Place', 'Placep', 'Pn', 'Plen', 'Pdrop', 'Pstutter', 'Pswitch',
+import os
+
+LIFT = set(os.environ.get('C13_LIFT', '').split(','))   # scratch audits only
+
+POLY = ['Pseq', 'Pser', 'Place', 'Placep', 'Plazy', 'Pn', 'Plen', 'Pdrop', 'Pstutter', 'Pswitch',
         'Pswitch1', 'Pslide']
 NUMERIC = ['Pseries', 'Pgeom', 'Pdiff', 'Pconst', 'Pwrap', 'Pcollect',
            'Pselect', 'Preject', 'Pif', 'Punop', 'Pbinop', 'Pnarop',
-           'Pseed']
+           'Pseed', 'Pfuncn', 'Prout', 'Pfunc']
 
 
 class Gen:
@@ -147,6 +151,8 @@ class Gen:
     def mk_Pseq(self, kind, d):
         items = self.items(kind, d)
         off = self.r.randrange(len(items)) if self.r.random() < 0.5 else 0
+        if 'offset' in LIFT and self.r.random() < 0.4:
+            off = self.r.randint(-2 * len(items), 2 * len(items))
         return ('Pseq', items, self.repeats(), off)
 
     def mk_Pser(self, kind, d):
@@ -193,7 +199,7 @@ class Gen:
 
     def mk_Pstutter(self, kind, d):
         return ('Pstutter', self.g(self.subkind(kind), d - 1),
-                self.count(0, 3, d))
+                self.count(-2, 3, d))       # negative n: |n| repetitions
 
     def mk_Pswitch(self, kind, d):
         return ('Pswitch', self.items(kind, d), self.count(-2, 6, d))
@@ -238,9 +244,30 @@ class Gen:
             self.r.choice([0.75, 2.5, 4.0, 9.25])
         return ('Pconst', self.gx(k, d - 1), total)
 
+    def bkind(self, k):
+        """kind of the bounds: mostly the receiver's, sometimes the other
+        numeric kind (int receiver with float bounds and vice versa)"""
+        if self.r.random() < 0.25:
+            return 'flt' if k == 'int' else 'int'
+        return k
+
+    def mk_Plazy(self, kind, d):
+        return ('Plazy', self.g(self.subkind(kind), d - 1))
+
+    def mk_Pfuncn(self, kind, d):
+        return ('Pfuncn', self.lit(self.nk(kind)), self.repeats(0, 5, 0.1))
+
+    def mk_Pfunc(self, kind, d):
+        return ('Plen', ('Pfunc', self.lit(self.nk(kind))), self.r.randint(0, 6)) \
+            if self.r.random() < 0.7 else ('Pfunc', self.lit(self.nk(kind)))
+
+    def mk_Prout(self, kind, d):
+        k = self.nk(kind)
+        return ('Prout', [self.lit(k) for _ in range(self.r.randint(0, 5))])
+
     def mk_Pwrap(self, kind, d):
         k = self.nk(kind)
-        lo, hi = self.bounds(k)
+        lo, hi = self.bounds(self.bkind(k))
         return ('Pwrap', self.gx(k, d - 1), lo, hi)
 
     def mk_Pcollect(self, kind, d):
@@ -352,7 +379,7 @@ class Gen:
                 f = ('Pseq', [f, f] if k == 'int' else [0.5, 0.25],
                      self.repeats(1, 4, 0.5), 0)
             return ('Pnarop', 'blend', form, a, b, f)
-        lo, hi = self.bounds(k)
+        lo, hi = self.bounds(self.bkind(k))
         return ('Pnarop', op, form, a, lo, hi)
 
     def mk_Pflatten(self, kind, d):
@@ -362,6 +389,8 @@ class Gen:
         else:
             src, depth = self.g('list2', d - 1), 2
         n = r.choice([depth, depth, depth + 1])
+        if 'flatten' in LIFT:
+            n = r.choice([0, 1, 2])
         if r.random() < 0.25:
             n = ('Pseq', [n, depth + 1], self.repeats(1, 3, 0.6), 0)
         return ('Pflatten', src, n)
@@ -381,9 +410,15 @@ class Gen:
         elif c < 0.6:
             spec = ('Prand', [self.lit(k) for _ in range(r.randint(1, 4))],
                     r.randint(1, 5))
-        elif c < 0.75:
-            items = r.sample(INT_LITS if k == 'int' else FLT_LITS, r.randint(2, 4))
+        elif c < 0.72:
+            items = r.sample(INT_LITS if k == 'int' else FLT_LITS, r.randint(1, 4))
             spec = ('Pxrand', items, r.randint(1, 5))
+        elif c < 0.8:
+            items = r.sample(INT_LITS if k == 'int' else FLT_LITS, r.randint(1, 4))
+            w = [r.choice([0, 0, 1, 2, 0.5]) for _ in items]
+            if not any(w):
+                w[r.randrange(len(w))] = 1
+            spec = ('Pwrand', items, w if r.random() < 0.8 else None, r.randint(1, 6))
         elif c < 0.9:
             items = r.sample(INT_LITS if k == 'int' else FLT_LITS, r.randint(1, 4))
             spec = ('Pshuffle', items, r.randint(1, 2))
